@@ -36,7 +36,7 @@ Notation "P ~> Q" := (leadsto r P Q) (at level 70).
 Notation ensures := (lt_ensures guard eff r (Inv cap) Inv_run).
 Notation ensures_s := (lt_ensures_s guard eff r (Inv cap) Inv_run).
 Let Fwl : sfair g_wl r := proj1 (proj2 (proj2 (proj2 F))).
-Let Fbody : sfair g_body r := proj2 (proj2 (proj2 (proj2 (proj2 (proj2 (proj2 F)))))).
+Let Fbody : sfair g_body r := proj1 (proj2 (proj2 (proj2 (proj2 (proj2 (proj2 (proj2 F))))))).
 Let Wwl := sfair_fair guard eff r g_wl Fwl.
 Let Wbody := sfair_fair guard eff r g_body Fbody.
 Notation rl_release := (CliL2.rl_release cap cap_pos r F R0 NS).
@@ -51,10 +51,10 @@ Lemma bw_holder : forall s, inv1 s ->
 Proof.
   intros s I. pose proof (i_bw _ I) as H. unfold bw_of_state, cpc in *.
   repeat split.
-  - intros E; rewrite E in H. destruct (wl s) as [| | |?|?| | | |[]| | |]; try discriminate;
+  - intros E; rewrite E in H. destruct (wl s) as [| | |?|?| | |[]| | |]; try discriminate;
       destruct (rl s) as [|?| |?|? ?|? ?| | |[]|]; try discriminate; auto;
       destruct (uc s) as [|[]|]; discriminate.
-  - intros E; rewrite E in H. destruct (wl s) as [| | |?|?| | | |[]| | |]; try discriminate;
+  - intros E; rewrite E in H. destruct (wl s) as [| | |?|?| | |[]| | |]; try discriminate;
       destruct (rl s) as [|?| |?|? ?|? ?| | |[]|]; try discriminate;
       destruct (uc s) as [|[]|]; try discriminate; auto.
   - intros (h & E) Hb. rewrite E, Hb in H.
@@ -63,13 +63,13 @@ Proof.
 Qed.
 
 Lemma it_LLockB : forall n,
-  (fun s => (done s = true /\ exists h, wl s = LLockB h) /\ wm s = n) ~> iterQ n.
+  (fun s => (True /\ exists h, wl s = LLockB h) /\ wm s = n) ~> iterQ n.
 Proof.
   intros n. apply (ensures_s g_wl); auto.
   - apply (CliL3c.llock_unless cap cap_pos r NS).
   - wunf; cens2.
   - intros i HP.
-    assert (forall s, ((done s = true /\ exists h, wl s = LLockB h) /\ wm s = n) -> bw s = BwNone ->
+    assert (forall s, ((True /\ exists h, wl s = LLockB h) /\ wm s = n) -> bw s = BwNone ->
               exists a, g_wl a /\ guard a s) as En.
     { intros s ((Hd & h & Hw) & Hn) Hb. exists LLock; cbn; eauto. }
     destruct (Inv_run i) as ((I1 & _) & _). destruct (bw_holder _ I1) as (B1 & B2 & B3).
@@ -85,7 +85,7 @@ Proof.
 Qed.
 
 Lemma wl_iter_step : forall n,
-  (fun s => (done s = true /\ wl_iter s) /\ wm s = n) ~> iterQ n.
+  (fun s => (True /\ wl_iter s) /\ wm s = n) ~> iterQ n.
 Proof.
   intros n i ((Hd & Hi) & Hn). unfold wl_iter in Hi.
   destruct (wl (st r i)) eqn:E; try contradiction.
@@ -94,10 +94,9 @@ Proof.
   - apply (it_LLockB n); eauto.
   - apply (CliL3a.it_LWrite cap cap_pos r F R0 NS n); eauto.
   - apply (CliL3d.it_LRefill cap cap_pos r F R0 NS n); auto.
-  - apply (CliL3d.it_LSelfOut cap cap_pos r F R0 NS n); auto.
 Qed.
 
-Lemma wl_iter_end : (fun s => done s = true /\ wl_iter s) ~> (fun s => wl s = LSel \/ wl_t s).
+Lemma wl_iter_end : (fun s => True /\ wl_iter s) ~> (fun s => wl s = LSel \/ wl_t s).
 Proof.
   apply (lt_variant guard eff r _ _ wm). intros n i H.
   destruct (wl_iter_step n i H) as (j & Hj & Hq). exists j; split; auto.
@@ -123,7 +122,7 @@ Proof.
         * exists j; split; auto. right. exists LSelDone; cbn; auto.
         * exists j; auto. }
   intros i Hd. destruct (wl (st r i)) eqn:E.
-  1-7: apply K; split; auto; unfold wl_iter; rewrite E; auto.
+  1-6: apply K; split; auto; unfold wl_iter; rewrite E; auto.
   all: exists i; split; auto; unfold wl_t; rewrite E; auto.
 Qed.
 End P.
